@@ -463,6 +463,13 @@ func (p *Packer) Unpack(r io.Reader, dst string) error {
 			continue
 		}
 
+		// A PAX header record describes no file. The name it is stored under
+		// is bookkeeping of the program that wrote the archive (GNU tar uses
+		// "$TMPDIR/GlobalHead.%n"), so nothing is created or checked for it.
+		if header.Typeflag == tar.TypeXGlobalHeader || header.Typeflag == tar.TypeXHeader {
+			continue
+		}
+
 		info, err := unpackinfo.NewUnpackInfo(dst, header)
 		if err != nil {
 			return &IllegalSlugError{Err: err}
